@@ -117,7 +117,7 @@ def r2(ctx, R):
                            "(a = new_model('A'); a.close(); new_model('A'); a.close())")
 
 
-@rule("C19.R3", "C19", "DOM", "every registry write is dominated by a taken-name test", min_instances=7)
+@rule("C19.R3", "C19", "DOM", "every registry write is dominated by a taken-name test", min_instances=7, also=("C14",))
 def r3(ctx, R):
     """new_model: `name in self.models` true -> _rename_samename(name) before the model is
     created; ModelImpl.rename: name assigned and True returned only under is_valid_name and
@@ -269,6 +269,23 @@ def r5(ctx, R):
     """Per-model classes have no class-level list/dict/set/deque/constructor value and no
     mutable default argument; ModelImpl.__init__ constructs its own SpaceManager,
     ReferenceManager, graphs and containers."""
+    osp = ctx.func("UserCellsImpl.on_set_property")
+    R.inst("UserCellsImpl.on_set_property: the formula that is installed is built here (NULL_FORMULA or a constructor call)")
+    for st, t in q.attr_writes(osp, attr="formula", recv="self"):
+        vals = []
+        if isinstance(st.value, ast.Name):
+            vals = [v for x in assigned_value(osp, st.value.id) for v, _ in q.arms(osp, x)]
+        else:
+            vals = [st.value]
+        for v in vals:
+            v = q.origin(osp, v)
+            if norm(v) == "NULL_FORMULA":
+                continue
+            if isinstance(v, ast.Call) and v.args and norm(v.args[0]) == "func" and \
+                    all(norm(a) in ("Formula", "func.__class__") for a, _ in q.arms(osp, v.func)):
+                continue
+            R.bad(osp, st, "the Formula object handed in is installed as it is: two cells (of two models) share one object, and "
+                           "reload() of one rewrites the other's formula")
     ci_ = ctx.func("CellsImpl.__init__")
     R.inst("CellsImpl.__init__: a cells that is not derived gets its own Formula object (Formula._reload mutates in place)")
     for st, t in q.attr_writes(ci_, attr="formula", recv="self"):
